@@ -293,6 +293,9 @@ func oracle(c Case) *ev.Verdict {
 			}
 		}
 	}
+	if v := failedFirst(c); v != nil {
+		return v
+	}
 	ev.Guard("inheritance", c)
 	defer ev.Unguard()
 	b := sut.Build(tp)
@@ -427,6 +430,58 @@ func oracle(c Case) *ev.Verdict {
 
 var universe = []string{"a", "b", "c", "d", "e", "f"}
 
+// wide objects: merged property lists of ten and more entries, a duplicate at any position
+var universeWide = func() []string {
+	var u []string
+	for i := 0; i < 72; i++ {
+		u = append(u, fmt.Sprintf("k%02d", i))
+	}
+	return u
+}()
+
+// failedFirst: the type objects are first registered in a root schema from which the withheld types are
+// missing - its Check() fails - and then, the very same objects, in a root schema that has all of them:
+// the second result must be that of fresh objects. (Cases with an allOf list are left out: a merge that
+// fails after its first parent leaves the shared type half-extended, the C10 known finding.)
+func failedFirst(c Case) *ev.Verdict {
+	withheld := false
+	for _, t := range c.Types {
+		if len(t.AllOf) > 1 {
+			return nil
+		}
+		withheld = withheld || t.Withheld
+	}
+	if !withheld {
+		return nil
+	}
+	p1, _ := c.project()
+	full := Case{Order: nil, Wrap: c.Wrap}
+	for _, t := range c.Types {
+		t.Withheld = false
+		full.Types = append(full.Types, t)
+	}
+	p2, _ := full.project()
+	t1, t2 := p1.Text(nil), p2.Text(nil)
+	ev.Guard("inheritance", c)
+	defer ev.Unguard()
+	b1 := sut.Build(t1)
+	o1 := sut.ObserveBuilt(b1)
+	if o1.Check == nil || len(o1.Escapes) > 0 {
+		return nil // (the missing type is not reachable, or the main oracle reports the panic)
+	}
+	shared := sut.ObserveBuilt(sut.BuildSharing(t2, b1))
+	fresh := sut.Observe(t2)
+	if len(shared.Escapes) > 0 {
+		e := shared.Escapes[0]
+		return ev.V("failed-first:panic:"+e.Op+":"+e.Frame, "%s panicked in the complete root schema built from the objects of a failed one: %s\n%s", e.Op, e.Value, t2)
+	}
+	ev.Class("inheritance", "type objects first registered in a root schema that fails for a missing type")
+	if sut.CodeOf(shared.Check) != sut.CodeOf(fresh.Check) || shared.Example != fresh.Example {
+		return ev.V("failed-first:differs", "type objects first registered where %v is missing (Check: %v), then in the complete root schema: Check() = %v, Example() = %s; fresh objects give %v, %s\n%s", p1.Withheld, o1.Check, shared.Check, shared.Example, fresh.Check, fresh.Example, t2)
+	}
+	return nil
+}
+
 func genCase(t *rapid.T) Case {
 	n := rapid.IntRange(1, 5).Draw(t, "n")
 	names := []string{"@main"}
@@ -434,6 +489,7 @@ func genCase(t *rapid.T) Case {
 		names = append(names, fmt.Sprintf("@t%d", i))
 	}
 	var c Case
+	wide := rapid.IntRange(0, 3).Draw(t, "wide") == 0
 	c.Wrap = rapid.SampledFrom([]int{0, 0, 0, 1, 2}).Draw(t, "wrap")
 	parents := names
 	if c.Wrap != 0 {
@@ -447,6 +503,11 @@ func genCase(t *rapid.T) Case {
 			o.NonObj = true
 		}
 		o.Keys = rapid.SliceOfNDistinct(rapid.SampledFrom(universe), 0, 2, func(s string) string { return s }).Draw(t, nm+"keys")
+		if wide {
+			// every type gets keys of its own (no accidental clashes); one clash is planted below
+			at := len(c.Types) * 12
+			o.Keys = append([]string{}, universeWide[at:at+rapid.IntRange(3, 12).Draw(t, nm+"widekeys")]...)
+		}
 		for range o.Keys {
 			o.Opt = append(o.Opt, rapid.IntRange(0, 3).Draw(t, nm+"opt") == 0)
 			v := ""
@@ -457,6 +518,12 @@ func genCase(t *rapid.T) Case {
 				v = rapid.SampledFrom(names[1:]).Draw(t, nm+"valref")
 			case 2, 3:
 				v = "obj+" + rapid.SampledFrom(names[1:]).Draw(t, nm+"valnested")
+			}
+			if wide && len(o.Vals) >= 2 && v != "" && v != "obj" {
+				// (Example() of a project with many mutually referring optional properties grows with the
+				// product of their numbers - minutes and gigabytes for five wide types; two links per type
+				// keep the case about inheritance)
+				v = ""
 			}
 			o.Vals = append(o.Vals, v)
 		}
@@ -487,6 +554,17 @@ func genCase(t *rapid.T) Case {
 			o.Withheld = true
 		}
 		c.Types = append(c.Types, o)
+	}
+	if wide && len(c.Types) >= 2 && rapid.Bool().Draw(t, "clash") {
+		// exactly one property name occurs twice, at any position of either list
+		x := rapid.IntRange(0, len(c.Types)-1).Draw(t, "clashx")
+		y := rapid.IntRange(0, len(c.Types)-2).Draw(t, "clashy")
+		if y >= x {
+			y++
+		}
+		if len(c.Types[x].Keys) > 0 && len(c.Types[y].Keys) > 0 {
+			c.Types[y].Keys[rapid.IntRange(0, len(c.Types[y].Keys)-1).Draw(t, "clashyi")] = c.Types[x].Keys[rapid.IntRange(0, len(c.Types[x].Keys)-1).Draw(t, "clashxi")]
+		}
 	}
 	// value references must not create mandatory recursion (that is C06's business): make them optional
 	for i := range c.Types {
